@@ -34,43 +34,43 @@ def accepted_set(F):
     Cc = app("sparse::SparseMatrix::num_cols", H)
     D = Cc - R
     rets = [e for e in tr.events if e.callee == "<return>"]
-    first, rest = set(), set()
-    n_counted_guard = None
+    from .symx import evaluate, NotEvaluable, single_atom
     for e in rets:
         if e.args != [("bool", False)]:
             raise AnalysisError("is_staircase: early return of something other than `false`")
         if not e.loops or e.loops[0][0] != "iter" or "iter_all" not in repr(e.loops[0][2]):
             raise AnalysisError("is_staircase: rejecting return outside a loop over iter_all()")
-        jn, kn = e.loops[0][1]
-        J, K = var(jn), var(kn)
-        gs = e.guards
-        # outer guard: k >= D  (le(D, k))
-        if not gs or gs[0] != (app("le", D, K), True):
-            raise AnalysisError("is_staircase: parity-part guard is not `k >= cols - rows`")
-        conj = []
-        for g, pol in gs[1:]:
-            if not pol:
-                raise AnalysisError("is_staircase: negative guard")
-            conj += _flatten_and(g)
-        rowsel = None
-        offs = set()
-        for a in conj:
-            x, y = a[2][1], a[3][1]
-            if a[1] in ("eq", "ne") and ((x == num(0) and y == J) or (y == num(0) and x == J)):
-                rowsel = a[1]
-            elif a[1] == "ne":
-                other = y if x == K else (x if y == K else None)
-                if other is None:
-                    raise AnalysisError("is_staircase: conjunct not about k: %r" % (a,))
-                offs.add(other - D)
-            else:
-                raise AnalysisError("is_staircase: unreadable conjunct %r" % (a,))
-        if rowsel == "eq":
-            first |= offs
-        elif rowsel == "ne":
-            rest |= offs
-        else:
-            raise AnalysisError("is_staircase: reject condition without a row selector")
+    if not rets:
+        raise AnalysisError("is_staircase: no rejecting return found")
+    jn, kn = rets[0].loops[0][1]
+    # The accepted set is read *semantically*: the rejecting path conditions are evaluated as formulas on a grid of
+    # (row j, column k) around the diagonal of a representative shape; what is not rejected in the parity part is accepted.
+    Rn, Cn = 9, 23
+    Dn = Cn - Rn
+    base = {single_atom(R): Rn, single_atom(Cc): Cn}
+
+    def rejected(j, k):
+        env = dict(base)
+        env[jn] = j
+        env[kn] = k
+        for e in rets:
+            try:
+                if all(bool(evaluate(g, env)) == pol for g, pol in e.guards):
+                    return True
+            except NotEvaluable as ex:
+                raise AnalysisError("is_staircase: condition not evaluable: %s" % ex)
+        return False
+    first = {num(k - Dn) for k in range(Dn, Cn) if not rejected(0, k)}
+    rest_by_j = []
+    for j in range(1, Rn):
+        rest_by_j.append({k - Dn - j for k in range(Dn, Cn) if not rejected(j, k)})
+    if any(r != rest_by_j[0] for r in rest_by_j):
+        rest = {var("j") + num(1000)}      # row-dependent acceptance: cannot be a staircase
+    else:
+        rest = {var("j") + num(d) for d in rest_by_j[0]}
+    # entries left of the parity part must never be rejected
+    if any(rejected(j, k) for j in range(Rn) for k in range(0, Dn)):
+        first = first | {num(-1000)}
     # count: num_checked incremented once per parity entry, compared with 2*rows - 1
     count_ok = ret == app("eq", R * num(2) - num(1), var("num_checked@after")) or \
         ret == app("eq", var("num_checked@after"), R * num(2) - num(1))
